@@ -117,6 +117,8 @@ class PredictEval:
         self.panel = pos[0] if pos else None
         self.env = {self.panel: ("panel",)} if self.panel else {}
         self.problems = []
+        self.untyped_buffers = {}
+        self.result_buffer = None
         self.result = None
         self.returns = 0
 
@@ -136,6 +138,9 @@ class PredictEval:
                     self.result = ("opaque", "return-in-loop")
                     return
                 self.result = self.ev(st.value) if st.value is not None else ("opaque", "None")
+                for n in ast.walk(st.value) if st.value is not None else ():
+                    if isinstance(n, ast.Name) and n.id in self.untyped_buffers:
+                        self.result_buffer = self.untyped_buffers[n.id]
                 return
             if isinstance(st, ast.Assign) and len(st.targets) == 1:
                 t = st.targets[0]
@@ -145,7 +150,10 @@ class PredictEval:
                 if isinstance(t, ast.Subscript) and isinstance(t.value, ast.Name) and loop is not None:
                     acc = self.env.get(t.value.id)
                     if acc is not None and acc[0] == "buffer" and self.ev(t.slice) == ROWIDX:
-                        loop.setdefault(t.value.id, []).append(self.ev(st.value))
+                        val = self.ev(st.value)
+                        loop.setdefault(t.value.id, []).append(val)
+                        if acc[1] != "table-dtype" and val[0] == "index":  # labels (not positions) are stored
+                            self.untyped_buffers[t.value.id] = acc[1]
                         continue
                 for nm in _names(t):
                     self.env[nm] = ("opaque", nm)
@@ -161,6 +169,19 @@ class PredictEval:
                         loop.setdefault(f.value.id, []).append(self.ev(c.args[0]))
                     continue
                 continue  # other expression statements (guards, validators) do not define the result
+            if isinstance(st, ast.For) and not st.orelse and isinstance(st.target, ast.Tuple) and len(st.target.elts) == 2 \
+                    and all(isinstance(x, ast.Name) for x in st.target.elts) and loop is None:
+                it = self.ev(st.iter)
+                if it[0] == "enumerate" and self.rows_of(it[1]) and all(isinstance(b, (ast.Assign, ast.Expr)) for b in st.body):
+                    self.env[st.target.elts[0].id] = ROWIDX
+                    self.env[st.target.elts[1].id] = self.rows_of(it[1])
+                    inner = {}
+                    self.block(st.body, inner)
+                    for nm, vals in inner.items():
+                        self.env[nm] = ("map", vals[0]) if len(vals) == 1 else ("opaque", "several stores per row")
+                    continue
+                self._kill(st)
+                continue
             if isinstance(st, ast.For) and not st.orelse and isinstance(st.target, ast.Name):
                 it = self.ev(st.iter)
                 if self.rows_of(it) or it == ("range", NROWS):
@@ -204,8 +225,17 @@ class PredictEval:
             return ("acc",)
         if isinstance(e, ast.Call) and not e.args and not e.keywords and self.scope.ext(e.func) == "builtins.list":
             return ("acc",)
-        if isinstance(e, ast.Call) and self.scope.ext(e.func) in ("numpy.zeros", "numpy.empty") and e.args:
-            return ("buffer",)
+        if isinstance(e, ast.Call) and self.scope.ext(e.func) in ("numpy.zeros", "numpy.empty", "numpy.full", "numpy.ones") \
+                and e.args:
+            dt = kw(e, "dtype")
+            if dt is None and self.scope.ext(e.func) != "numpy.full" and len(e.args) > 1:
+                dt = e.args[1]
+            if dt is None and self.scope.ext(e.func) == "numpy.full" and len(e.args) > 2:
+                dt = e.args[2]
+            ok = dt is not None and ((isinstance(dt, ast.Name) and dt.id == "object")
+                                     or (isinstance(dt, ast.Attribute) and dt.attr == "dtype" and self.ev(dt.value)[0] in (
+                                         "self", "encoder-classes")))
+            return ("buffer", "table-dtype" if ok else astq.canon(e)[:60])
         return self.ev(e)
 
     # ---------------------------------------------------------------- expressions
@@ -293,6 +323,8 @@ class PredictEval:
             return self.ev(c.args[0])
         if ext == "builtins.len" and len(c.args) == 1 and self.ev(c.args[0]) in (("panel",), PROBA):
             return NROWS
+        if ext == "builtins.enumerate" and len(c.args) == 1 and not c.keywords:
+            return ("enumerate", self.ev(c.args[0]))
         if ext == "builtins.range" and not c.keywords:
             if len(c.args) == 1:
                 return ("range", self.ev(c.args[0]))
@@ -711,6 +743,12 @@ class Checker:
         # --- shape: map(index(T, argmax(row)))
         if term[0] == "map" and term[1][0] == "index":
             table, sel = term[1][1], term[1][2]
+            if ev.result_buffer is not None:
+                ctx.violation("R1", name + ".predict:label-dtype", "decoded labels are written into %s, an array whose dtype does not "
+                              "come from the label table (dtype=object / <table>.dtype): numpy casts every label to that dtype "
+                              "(strings are truncated to the length of the fill value, numbers change type), so predict does not "
+                              "return labels of the training label set in the user's label type" % ev.result_buffer, loc,
+                              witness={"input": "labels ['a', 'bbb']: np.full(n, classes_[0]) is '<U1', 'bbb' is stored as 'b'"})
             alts = _alternatives(sel)
             if len(alts) > 1 and all(a == ("argmax", ROW) for a in alts):
                 sel = ("argmax", ROW)
@@ -997,6 +1035,11 @@ class Checker:
             ctx.undecided("R2", c + ":normaliser", "return value is not sum(parts)/D or mean(parts): %s" % astq.canon(e)[:80], loc)
             return
         gen = unwrap_parallel(scope, parts)
+        zipped = self._zip_to_index(scope, gen)
+        if zipped is not None:
+            gen, zip_counts = zipped
+        else:
+            zip_counts = []
         if not isinstance(gen, (ast.GeneratorExp, ast.ListComp)) or len(gen.generators) != 1 or gen.generators[0].ifs \
                 or not isinstance(gen.generators[0].target, ast.Name):
             ctx.undecided("R2", c + ":members", "parts are not one expression per member: %s" % astq.canon(parts)[:80], loc)
@@ -1004,15 +1047,25 @@ class Checker:
         g = gen.generators[0]
         var = g.target.id
         it = g.iter
+        alt_counts = []
         if not (isinstance(it, ast.Call) and scope.ext(it.func) == "builtins.range" and len(it.args) == 1):
             ctx.undecided("R2", c + ":members", "members are not iterated by range(N): %s" % astq.canon(it)[:60], loc)
             return
         n_members = it.args[0]
         if den is not None:
-            same = astq.canon(den) == astq.canon(n_members)
-            ctx.check(same, "R2", c + ":normaliser", "divisor %s == number of summed member matrices" % astq.canon(den),
-                      "the sum of %s member matrices is divided by %s" % (astq.canon(n_members), astq.canon(den)), loc,
-                      witness={"members": astq.canon(n_members), "divisor": astq.canon(den)})
+            same = astq.canon(den) == astq.canon(n_members) or astq.canon(den) in [astq.canon(z) for z in zip_counts]
+            if not same and zip_counts and is_self_attr(den) and self._is_ctor_param(cls, den.attr):
+                ctx.violation("R2", c + ":normaliser", "the member matrices of the fitted collections (%s of them) are summed but "
+                              "divided by the constructor parameter self.%s, which can change after fit (set_params) while the "
+                              "fitted members stay" % (astq.canon(n_members), den.attr), loc,
+                              witness={"history": "fit; set_params(%s=k); predict_proba: rows no longer sum to 1" % den.attr})
+                same = None
+            if same is None:
+                pass
+            else:
+              ctx.check(same, "R2", c + ":normaliser", "divisor %s == number of summed member matrices" % astq.canon(den),
+                        "the sum of %s member matrices is divided by %s" % (astq.canon(n_members), astq.canon(den)), loc,
+                        witness={"members": astq.canon(n_members), "divisor": astq.canon(den)})
         else:
             ctx.ok("R2", c + ":normaliser", "plain mean over the %s member outputs" % astq.canon(n_members), loc)
         # element: [delayed](f)(args)
@@ -1076,6 +1129,44 @@ class Checker:
             member_attr = actual.value.attr
         ctx.check(good, "R2", c + ":member-output", "each part is self.%s[i].%s(features)" % (member_attr, member_method),
                   "a part is not the %s of the i-th fitted member" % member_method, self.loc(tmod, tfn))
+
+    def _is_ctor_param(self, cls, attr):
+        hit = self.lookup(cls, "__init__")
+        return hit is not None and hit[0] == "repo" and attr in astq.all_param_names(hit[2])
+
+    def _zip_to_index(self, scope, gen):
+        """`f(a, b) for a, b in zip(self.A, self.B)` (or `for a in self.A`)  ->  `f(self.A[i], self.B[i]) for i in
+        range(len(self.A))` so that the indexed-member obligations apply unchanged."""
+        import copy
+        if not isinstance(gen, (ast.GeneratorExp, ast.ListComp)) or len(gen.generators) != 1 or gen.generators[0].ifs:
+            return None
+        g = gen.generators[0]
+        if is_self_attr(g.iter) and isinstance(g.target, ast.Name):
+            pairs = [(g.target.id, g.iter)]
+        elif isinstance(g.iter, ast.Call) and scope.ext(g.iter.func) == "builtins.zip" and isinstance(g.target, ast.Tuple) \
+                and len(g.target.elts) == len(g.iter.args) and all(isinstance(t, ast.Name) for t in g.target.elts) \
+                and all(is_self_attr(a) for a in g.iter.args):
+            pairs = [(t.id, a) for t, a in zip(g.target.elts, g.iter.args)]
+        else:
+            return None
+        idx = "_member_index"
+        mapping = dict(pairs)
+
+        class Sub(ast.NodeTransformer):
+            def visit_Name(self, node):
+                if isinstance(node.ctx, ast.Load) and node.id in mapping:
+                    return ast.copy_location(ast.Subscript(value=copy.deepcopy(mapping[node.id]),
+                                                           slice=ast.Name(id=idx, ctx=ast.Load()), ctx=ast.Load()), node)
+                return node
+
+        elt = Sub().visit(copy.deepcopy(gen.elt))
+        counts = [ast.Call(func=ast.Name(id="len", ctx=ast.Load()), args=[copy.deepcopy(a)], keywords=[]) for _, a in pairs]
+        new_iter = ast.Call(func=ast.Name(id="range", ctx=ast.Load()), args=[counts[0]], keywords=[])
+        comp = ast.comprehension(target=ast.Name(id=idx, ctx=ast.Store()), iter=new_iter, ifs=[], is_async=0)
+        out = ast.GeneratorExp(elt=elt, generators=[comp])
+        ast.copy_location(out, gen)
+        ast.fix_missing_locations(out)
+        return out, counts
 
     def r2_member_labels(self, cls):
         """Members whose probability matrices are added column by column must be fitted on the full label vector
